@@ -2,6 +2,10 @@ import QclibModel.Proofs.IsometryCcdComplex
 import QclibModel.Proofs.IsometryLemma2
 import QclibModel.Proofs.IsometryKnill
 import QclibModel.Proofs.IsometryExtend
+import QclibModel.Proofs.IsometryFullCcd
+import QclibModel.Proofs.IsometryFullKnill
+import QclibModel.Proofs.IsometryFullCsd
+import QclibModel.Proofs.UnitaryFullEx
 /-
   C03 — isometry decomposition (`qclib/isometry.py`).  Property theorems only; proofs live in
   Proofs/Isometry*.lean.  PARTIAL by nature: scipy `schur` / `null_space` / `cossin`, qiskit
@@ -166,5 +170,165 @@ theorem C03_ccd_sweep (n K : Nat) (hK : K ≤ 2 ^ n) (F : Nat → Nat → ℂ)
     ∀ c, c < K → (∀ r, r < 2 ^ n → r ≠ c → sweep complexChooser n K F c r = 0) ∧
       (starRingEnd ℂ) (sweep complexChooser n K F c c) * sweep complexChooser n K F c c = 1 :=
   ccd_sweep_complex n K hK F horth hnorm
+
+/-! ### whole-circuit assembly, with the per-gate specifications as hypotheses -/
+
+/-- **C03 (the whole column-by-column circuit, `UCGate(up_to_diagonal=True)` included).**  Over any
+commutative ring with a conjugation `conj`.  The run of `_ccd(iso, n, m)` is described by its data
+`D` (the 2×2 matrix of every scheduled MCG / UCG block, the unknown diagonal every
+`UCGate(…, up_to_diagonal=True)` leaves behind — after the MCG and after the UCG of every step
+`(k, i)` — and the closing `DiagonalGate`); `sweepD D n K` is `G_{K-1} ⋯ G_0` with those diagonals,
+`ccdCircuit D n m` the whole circuit before `inverse()` (closing diagonal on the wires `0 … m-1`,
+only if `m > 0`), acting on a column (rows are numbers, bit `i` = wire `i`).  IF
+* the columns `F 0 … F (2^m - 1)` are orthonormal (`m ≤ n`),
+* every 2×2 matrix meets Lemma 2 on the column of the working isometry it was computed from
+  (`Lemma2Spec` — what `C03_lemma2` / `codeChooser_zeroing` give for `_unitary`, see
+  `lemma2Spec_of_chooser`), all of them are unitary and all step diagonals unimodular (`UnitarySpec`),
+THEN (1) after all `G_k` column `c` of the working isometry is `φ_c·e_c` with `conj φ_c · φ_c = 1` —
+the schedule theorems `C03_ccd_schedule` / `C03_ccd_sweep` survive the diagonals; (2) if the closing
+diagonal holds `conj φ_c` (`exp(-i·angle φ_c)`), the circuit maps column `c` to EXACTLY `e_c` when
+`m > 0` (for `m = 0` nothing is emitted and column `0` goes to `φ_0·e_0`); (3) the circuit preserves
+all inner products (it is unitary) when the closing diagonal is unimodular; (4) consequently any
+left inverse of the circuit on the rows `< 2^n` that respects equality on those rows — what
+`circuit.inverse()` is — maps `e_c` (`|c⟩` on the `m` low wires, `0` elsewhere) to column `c` of the
+isometry, phases included. -/
+theorem C03_ccd_full {R : Type} [CommRing R] (conj : R →+* R) (D : CcdData R) (n m : Nat)
+    (hm : m ≤ n) (F : Nat → Nat → R) (hD : UnitarySpec conj D) (hspec : Lemma2Spec D n (2 ^ m) F)
+    (horth : ∀ c c', c < c' → c' < 2 ^ m → ip conj n (F c) (F c') = 0)
+    (hnorm : ∀ c, c < 2 ^ m → ip conj n (F c) (F c) = 1) :
+    (∀ c, c < 2 ^ m → (∀ r, r < 2 ^ n → r ≠ c → sweepD D n (2 ^ m) (F c) r = 0) ∧
+      conj (sweepD D n (2 ^ m) (F c) c) * sweepD D n (2 ^ m) (F c) c = 1) ∧
+    ((∀ c, c < 2 ^ m → D.dz c = conj (sweepD D n (2 ^ m) (F c) c)) →
+      ∀ c, c < 2 ^ m → ∀ r, r < 2 ^ n →
+        ccdCircuit D n m (F c) r
+          = if r = c then (if 0 < m then 1 else sweepD D n (2 ^ m) (F c) c) else 0) ∧
+    ((∀ c, c < 2 ^ m → conj (D.dz c) * D.dz c = 1) →
+      ∀ u v, ip conj n (ccdCircuit D n m u) (ccdCircuit D n m v) = ip conj n u v) ∧
+    ((∀ c, c < 2 ^ m → D.dz c = conj (sweepD D n (2 ^ m) (F c) c)) → 0 < m →
+      ∀ Winv : (Nat → R) → (Nat → R),
+        (∀ v r, r < 2 ^ n → Winv (ccdCircuit D n m v) r = v r) →
+        (∀ u u' : Nat → R, (∀ r, r < 2 ^ n → u r = u' r) → ∀ r, r < 2 ^ n → Winv u r = Winv u' r) →
+        ∀ c, c < 2 ^ m → ∀ r, r < 2 ^ n → Winv (fun r' => if r' = c then 1 else 0) r = F c r) := by
+  obtain ⟨h1, h2, h3⟩ := ccd_full conj D n m hm F hD hspec horth hnorm
+  refine ⟨h1, h2, h3, fun hdz hm0 Winv hinv hcongr c hc r hr => ?_⟩
+  refine ccd_inverse n (ccdCircuit D n m) Winv _ (F c) (fun r hr => hinv _ r hr) hcongr
+    (fun r' hr' => ?_) r hr
+  rw [h2 hdz c hc r' hr', if_pos hm0]
+
+/-- non-vacuity of `C03_ccd_full`: one qubit, `m = 1`, the unitary `[[0,-1],[1,0]]` over `ℤ`; the run
+`exD` (Lemma-2 matrix `[[0,1],[-1,0]]`, after which the `UCGate` leaves the NON-trivial diagonal
+`(1,-1)`; closing diagonal `(1,-1)`) meets both specifications, the sweep ends with `-e_1` in column
+`1`, and the closing diagonal restores `e_1`. -/
+example : UnitarySpec (RingHom.id Int) exD ∧ Lemma2Spec exD 1 (2 ^ 1) exF ∧
+    (List.range 2).map (sweepD exD 1 2 (exF 1)) = [0, -1] ∧
+    (List.range 2).map (ccdCircuit exD 1 1 (exF 1)) = [0, 1] :=
+  ⟨exD_unitary, exD_lemma2, exD_result.2.1, exD_result.2.2⟩
+
+/-- **C03 (the run of `_ccd` over `ℂ`, unconditional in the matrices).**  `sweepFam ch dm du n K F`
+is the code's loop on the whole working isometry: at step `(k, i)` the MCG matrix is `_unitary` of
+the pair `(k, k+2^i)` of the CURRENT column `k`, the gate and the diagonal `dm k i` its
+`UCGate(up_to_diagonal=True)` leaves are applied to every column (`_update_isometry`), then the UCG
+blocks are `_unitary` of the pairs of the updated column `k`, applied with their diagonal `du k i`.
+For EVERY isometry (orthonormal columns `F 0 … F (2^m-1)`, `m ≤ n`), with the exact Lemma-2 matrices
+(`complexChooser`) and ANY unimodular diagonals: after all `G_k` column `c` is `φ_c·e_c` with
+`|φ_c|² = 1`, and multiplying row `r` by `conj φ_{r mod 2^m}` — the closing
+`DiagonalGate(exp(-i·angle(diag)))` on the wires `0 … m-1` — gives exactly `e_c`.  The only
+assumption left about `UCGate` is its specification "the multiplexer times SOME unimodular
+diagonal". -/
+theorem C03_ccd_code (n m : Nat) (hm : m ≤ n) (dm du : Nat → Nat → Nat → ℂ)
+    (hdm : ∀ k i r, (starRingEnd ℂ) (dm k i r) * dm k i r = 1)
+    (hdu : ∀ k i r, (starRingEnd ℂ) (du k i r) * du k i r = 1) (F : Nat → Nat → ℂ)
+    (horth : ∀ c c', c < c' → c' < 2 ^ m → ip (starRingEnd ℂ) n (F c) (F c') = 0)
+    (hnorm : ∀ c, c < 2 ^ m → ip (starRingEnd ℂ) n (F c) (F c) = 1) :
+    (∀ c, c < 2 ^ m →
+      (∀ r, r < 2 ^ n → r ≠ c → sweepFam complexChooser dm du n (2 ^ m) F c r = 0) ∧
+      (starRingEnd ℂ) (sweepFam complexChooser dm du n (2 ^ m) F c c)
+        * sweepFam complexChooser dm du n (2 ^ m) F c c = 1) ∧
+    (∀ c, c < 2 ^ m → ∀ r, r < 2 ^ n →
+      (starRingEnd ℂ) (sweepFam complexChooser dm du n (2 ^ m) F (r % 2 ^ m) (r % 2 ^ m))
+        * sweepFam complexChooser dm du n (2 ^ m) F c r = if r = c then 1 else 0) := by
+  have h := ccd_code_run (starRingEnd ℂ) complexChooser n m hm
+    (fun k _ => complexChooser_zeroing n k) complexChooser_unitary dm du hdm hdu F horth hnorm
+  refine ⟨h, fun c hc r hr => ?_⟩
+  by_cases hrc : r = c
+  · subst hrc
+    rw [if_pos rfl, Nat.mod_eq_of_lt hc]
+    exact (h r hc).2
+  · rw [if_neg hrc, (h c hc).1 r hr hrc, mul_zero]
+
+/-- non-vacuity of `C03_ccd_code`: the alternating-sign diagonals `(-1)^r` are unimodular (and not
+trivial); orthonormal columns as in the example of `C03_ccd_sweep`. -/
+example : ∀ k i r : Nat, (starRingEnd ℂ) ((fun _ _ r => if r % 2 = 1 then (-1 : ℂ) else 1) k i r)
+    * (fun _ _ r => if r % 2 = 1 then (-1 : ℂ) else 1) k i r = 1 := by
+  intro k i r
+  by_cases h : r % 2 = 1 <;> simp [h]
+
+/-- **C03 (Knill's decomposition at circuit level).**  `n ≥ 1` qubits, amplitude semantics, every
+state `ψ` (spectators included).  For each eigen-index `i` let `prep i` be a transformer denoting a
+unitary matrix `A i` on the wires `0 … n-1` (little-endian `applyMat`, Proofs/UnitaryFullMat.lean)
+whose column `|0…0⟩` is the eigenvector `w i` (the specification of `LowRankInitialize`, C01) and
+`prepInv i` one denoting `(A i)†` (`gate.inverse()`, C15).  If the `w i` are orthonormal and complete
+(Schur specification), every dropped eigenvalue is `1`, and `l` is the duplicate-free enumeration
+the loop runs through, then the circuit `_knill` emits — for each retained `i`, in loop order,
+`prep i† ; X on wires 0…n-1 ; MCP(λ_i) on (0…n-2 → n-1) ; X on all ; prep i` — denotes
+`Σ_i λ_i |w_i⟩⟨w_i|`, i.e. the extended unitary; and it maps `|j0⟩ ⊗ φ` (low wires in basis state
+`j0`, any state `φ` of the other wires) to (column `j0` of that unitary) `⊗ φ`. -/
+theorem C03_knill_full {R κ : Type} [CommRing R] [StarRing R] [Fintype κ] [DecidableEq κ]
+    (n : Nat) (hn : 1 ≤ n) (w : κ → Uni.QI n → R) (lam : κ → R)
+    (A : κ → Matrix (Uni.QI n) (Uni.QI n) R) (prep prepInv : κ → State R → State R)
+    (hp : ∀ i ψ, prep i ψ = Uni.applyMat n (A i) ψ)
+    (hpi : ∀ i ψ, prepInv i ψ = Uni.applyMat n (A i)ᴴ ψ)
+    (hA : ∀ i, A i * (A i)ᴴ = 1) (hcol : ∀ i x, A i x (Knill.zeroIdx n) = w i x)
+    (horth : ∀ i j, star (w i) ⬝ᵥ w j = if i = j then 1 else 0)
+    (hcomp : ∑ i, Knill.proj (w i) = 1) (keep : κ → Bool) (hkeep : ∀ i, keep i = false → lam i = 1)
+    (l : List κ) (hnd : l.Nodup) (hall : ∀ i, i ∈ l) :
+    (∀ ψ : State R,
+      Knill.run (fun i => Knill.block n (prep i) (prepInv i) (lam i)) (l.filter keep) ψ
+        = Uni.applyMat n (∑ i, lam i • Knill.proj (w i)) ψ) ∧
+    (∀ (j0 : Uni.QI n) (φ : State R), (∀ j b, φ (Uni.over n j b) = φ b) → ∀ b : Bits,
+      Knill.run (fun i => Knill.block n (prep i) (prepInv i) (lam i)) (l.filter keep)
+          (Knill.ket n j0 φ) b
+        = (∑ i, lam i • Knill.proj (w i)) (Uni.enc n b) j0 * φ b) := by
+  have h := Knill.knill_full n hn w lam A prep prepInv hp hpi hA hcol horth hcomp keep hkeep l hnd hall
+  exact ⟨h, fun j0 φ hφ b => by rw [h, Knill.applyMat_ket n _ j0 φ hφ b]⟩
+
+/-- non-vacuity of `C03_knill_full` (one qubit over `ℤ`, trivial conjugation): eigenvectors
+`e_0, e_1`, preparations `1` and `X` (their column `|0⟩` is the eigenvector, both unitary), which as
+transformers are `applyMat 1 (A i)` — all hypotheses hold, with `λ = (1, -1)` so that one eigenvalue is
+dropped and one retained. -/
+example :
+    let w : Uni.QI 1 → Uni.QI 1 → ℤ := fun i x => if x = i then 1 else 0
+    let A : Uni.QI 1 → Matrix (Uni.QI 1) (Uni.QI 1) ℤ :=
+      fun i => if i = Knill.zeroIdx 1 then 1 else fromBlocks 0 1 1 0
+    (∀ i, A i * (A i)ᴴ = 1) ∧ (∀ i x, A i x (Knill.zeroIdx 1) = w i x) ∧
+    (∀ i j, star (w i) ⬝ᵥ w j = if i = j then 1 else 0) ∧ ∑ i, Knill.proj (w i) = 1 := by
+  decide
+
+/-- **C03 (scheme `'csd'` as a whole).**  `_csd(iso, n, m)` is `unitary(U, "qsd", iso = n-m)` for the
+extension `U = [V | conj(null(Vᵀ))]` (`C03_extend`: `U` is unitary and its leading columns are `V`).
+IF `tape`/`leaves` are the record of a run of `build_unitary(U, "qsd", iso)` whose kernel outputs
+all meet their specifications (`Uni.QsdSynth`, see `C02_qsd_full`), THEN for every column index `j0`
+whose top `iso` qubits read `0` (the isometry's inputs) and every state `φ` of the other wires, the
+model's whole gate list maps `|j0⟩ ⊗ φ` to (column `j0` of `U`, i.e. of `V`) `⊗ φ`.  (The A.2 pass
+`_apply_a2` that `unitary` runs afterwards is a trusted qiskit kernel.) -/
+theorem C03_csd_full {Θ R : Type} [AddCommGroup Θ] [CommRing R] [StarRing R] [RotSem Θ R]
+    [RotLaws Θ R] (half : Θ → Θ) (negl : Θ → Bool)
+    (hhalf : ∀ a, half a + half a = a) (hadd : ∀ a b, half (a + b) = half a + half b)
+    (hnegl : ∀ a, negl a = true → a = 0) (hex : ∀ a : Θ, star (RotSem.ex a : R) = RotSem.ex (-a))
+    {n iso : Nat} {U : Matrix (Uni.QI n) (Uni.QI n) R} {tape : Uni.Tape Θ}
+    {leaves : List (Uni.Leaf R)} (h : Uni.QsdSynth (.one n iso U) tape leaves)
+    (j0 : Uni.QI n) (hj0 : Uni.TopZero n iso j0) (φ : State R)
+    (hφ : ∀ j b, φ (Uni.over n j b) = φ b) (b : Bits) :
+    (Uni.runUG (Uni.buildUnitary (Uni.stdUOps half negl) Uni.Dec.qsd n iso tape).1 leaves
+        (Knill.ket n j0 φ)).1 b = U (Uni.enc n b) j0 * φ b :=
+  iso_csd_full half negl hhalf hadd hnegl hex h j0 hj0 φ hφ b
+
+/-- non-vacuity of `C03_csd_full`: the `ℝ → ℂ` instance, `n = 3`, `iso = 1` (an isometry from 2 to 3
+qubits: the four leading columns of `CZ(1,2)`), with the valid record `synth_cz3_iso`. -/
+example : ∃ (tape : Uni.Tape ℝ) (leaves : List (Uni.Leaf ℂ)),
+    Uni.QsdSynth (.one 3 1 (Uni.CZtop 1 : Matrix (Uni.QI 3) (Uni.QI 3) ℂ)) tape leaves ∧
+    (∀ a : ℝ, star (RotSem.ex a : ℂ) = RotSem.ex (-a)) := by
+  obtain ⟨tape, leaves, hs, _, _⟩ := Uni.synth_cz3_iso
+  exact ⟨tape, leaves, hs, Uni.hex_real⟩
 
 end Qclib
